@@ -43,7 +43,25 @@ POOL: List[Any] = [
     dt.time(0, 0), dt.time(1, 2, 3), dt.time(23, 59, 59, 999999),
     decimal.Decimal("1.5"), decimal.Decimal("1"),
     [1], {"a": 1},
+    # lists / tuples: the values of list<element> columns (and of no other column)
+    [], [1, 2], (1, 2), [1, 2.0], [1.5, 2.7], [None, 1], [2**63], [True], [0.1, 1e40], [16777217], ["a", "é"], [b"x"], [1, "a"],
+    [[1], [2, 3]], [[1.5]], [dt.datetime(2020, 1, 1)],
 ]
+
+# list<element> column types the cell / spelling / correspondence loops run over (besides the primitive TYPES)
+LIST_TYPES = ["list<long>", "list<int>", "list<double>", "list<float>", "list<string>", "list<boolean>", "list<binary>",
+              "list<timestamp>", "list<list<long>>"]
+
+
+def elem_type(ty: str) -> Optional[str]:
+    """'list<e>' -> 'e'; None for anything else."""
+    if ty.startswith("list<") and ty.endswith(">"):
+        return ty[5:-1]
+    return None
+
+
+def is_seq(v: Any) -> bool:
+    return isinstance(v, (list, tuple))
 
 
 def f32(x: float) -> Optional[float]:
@@ -71,6 +89,12 @@ def exact(ty: str, v: Any, r: Any) -> bool:
     if ty == "opaque":
         # a type definition that names no primitive type: nothing may be altered at all
         return same_cell(v, r)
+    et = elem_type(ty)
+    if et is not None:
+        # a list column: a list (or tuple) comes back as a list of the same length, element by element
+        return is_seq(v) and type(r) is list and len(v) == len(r) and all(exact(et, a, b) for a, b in zip(v, r))
+    if is_seq(v) or is_seq(r):
+        return False
     if ty in ("int", "long"):
         return type(r) is int and is_number(v) and v == r
     if ty == "double":
@@ -112,6 +136,10 @@ def good_values(ty: str) -> List[Any]:
     """Values of POOL the declared type can hold (used to bias generated batches towards accepted appends)."""
     if ty == "opaque":
         ty = "string"
+    et = elem_type(ty)
+    if et is not None:
+        g = good_values(et)
+        return [[], g[:1], g[:3], [None] + g[1:2], tuple(g[:2])] + [v for v in POOL if is_seq(v) and v and all(exact(et, x, x) or x is None for x in v) and _all_good(et, v)][:4]
     out = []
     for v in POOL:
         if v is None:
@@ -147,6 +175,14 @@ def good_values(ty: str) -> List[Any]:
     return out
 
 
+def _all_good(et: str, seq: Any) -> bool:
+    """Every element of seq is None or one of the good values of the element type."""
+    if elem_type(et) is not None:
+        return all(x is None or (is_seq(x) and _all_good(elem_type(et), x)) for x in seq)
+    g = good_values(et)
+    return all(x is None or any(type(x) is type(y) and same_cell(x, y) for y in g) for x in seq)
+
+
 # ---------------------------------------------------------------------------------- JSON codec (replay files)
 def enc(v: Any) -> Any:
     if v is None or isinstance(v, (bool, str)):
@@ -165,7 +201,9 @@ def enc(v: Any) -> Any:
         return {"k": "time", "v": v.isoformat()}
     if isinstance(v, decimal.Decimal):
         return {"k": "decimal", "v": str(v)}
-    if isinstance(v, (list, tuple)):
+    if isinstance(v, tuple):
+        return {"k": "tuple", "v": [enc(i) for i in v]}
+    if isinstance(v, list):
         return {"k": "list", "v": [enc(i) for i in v]}
     if isinstance(v, dict):
         return {"k": "dict", "v": [[enc(a), enc(b)] for a, b in v.items()]}
@@ -194,6 +232,8 @@ def dec(j: Any) -> Any:
         return decimal.Decimal(v)
     if k == "list":
         return [dec(i) for i in v]
+    if k == "tuple":
+        return tuple(dec(i) for i in v)
     if k == "dict":
         return {dec(a): dec(b) for a, b in v}
     raise TypeError(k)
@@ -209,6 +249,8 @@ def dec_record(j: Any) -> Dict[Any, Any]:
 
 # ---------------------------------------------------------------------------------- Coq rendering (Model/Schema.v pyval)
 def pyval_to_coq(v: Any) -> str:
+    if isinstance(v, (list, tuple)):
+        return "(PList [" + "; ".join(pyval_to_coq(x) for x in v) + "])"
     if isinstance(v, (bytes, bytearray)):
         return "(PBytes [" + "; ".join(f"{b}%Z" for b in bytes(v)) + "])"
     if v is None or isinstance(v, (bool, int, float, str)):
@@ -230,4 +272,6 @@ def same_cell(a: Any, b: Any) -> bool:
         return (a != a and b != b) or a == b
     if type(a) is not type(b):
         return False
+    if isinstance(a, (list, tuple)):
+        return len(a) == len(b) and all(same_cell(x, y) for x, y in zip(a, b))
     return a == b
